@@ -8,11 +8,12 @@ from vlib.core import Broken, Mismatch, Failing
 
 ID = 'C07'
 LEVEL = 'proof'
-THEORIES = ['theories/L0Bits/BitsFacts.vo', 'theories/L3Context/CtxFacts.vo']
+THEORIES = ['theories/L0Bits/BitsFacts.vo', 'theories/L3Context/CtxFacts.vo',
+            'theories/L3Context/NamingFacts.vo']
 
 HEADER = '''From Coq Require Import ZArith List Bool String.
 Import ListNotations.
-From Omega Require Import L0Bits.Bits L3Context.Ctx.
+From Omega Require Import L0Bits.Bits L3Context.Ctx L3Context.Prime L3Context.Naming.
 Open Scope string_scope.
 Open Scope Z_scope.
 '''
@@ -40,9 +41,12 @@ def prove(ctx):
         'is evaluated in Coq on the cubes of every generated case on both '
         'back ends (cube_contract_b)')
     ctx.trusted.append(
-        'L3 model identifies a bit with (variable, index); the printing of '
-        'these pairs as dd variable names is assumed injective and is '
-        'checked on every generated context (bits_ctx.naming_ok)')
+        'L3 model identifies a bit with (variable, index); this is faithful '
+        'when the printing of bits as dd variable names (modelled in '
+        'L3Context/Naming.v, compared with the real names on every generated '
+        'context) is injective: C07_naming_injective; injectivity is what '
+        'the guard of fixes/F15.patch maintains and is re-checked on every '
+        'generated context and by the deterministic collision probe')
 
 
 # ------------------------------------------------------------------ instances
@@ -200,12 +204,13 @@ def run_ops(rng, inst, thorough):
                 rec('pick_iter', name, S,
                     call(lambda: list(ctx.pick_iter(u, care_vars=S))),
                     dict(cubes=cubes))
-                rec('pick', name, S, call(ctx.pick, u, care_vars=S))
+                rec('pick', name, S, call(ctx.pick, u, care_vars=S),
+                    dict(cubes=cubes))
         rec('count', name, None, call(ctx.count, u))
         cubes = [dict(c) for c in ctx.bdd.pick_iter(u)]
         rec('pick_iter', name, None, call(lambda: list(ctx.pick_iter(u))),
             dict(cubes=cubes))
-        rec('pick', name, None, call(ctx.pick, u))
+        rec('pick', name, None, call(ctx.pick, u), dict(cubes=cubes))
         # renamings: same-typed pairs, swap, chain, self, differently typed
         rens = []
         for a in names:
@@ -274,6 +279,56 @@ def run_ops(rng, inst, thorough):
     return ops
 
 
+def run_single(inst, o):
+    """Re-execute exactly one recorded operation (for replays)."""
+    ctx = inst.ctx
+    op, pred, args = o['op'], o.get('pred'), o.get('args')
+    u = inst.bdd(inst.preds[pred]) if pred else None
+    extra = None
+    if op == 'support':
+        r = call(ctx.support, u)
+    elif op == 'exist':
+        r = call(ctx.exist, set(args), u)
+    elif op == 'forall':
+        r = call(ctx.forall, set(args), u)
+    elif op == 'let_vals':
+        r = call(ctx.let, dict(args), u)
+    elif op == 'let_vars':
+        r = call(ctx.let, dict(args), u)
+    elif op == 'assign_from':
+        r = call(ctx.assign_from, dict(args))
+    elif op == 'count':
+        r = call(ctx.count, u, care_vars=args)
+    elif op == 'pick_iter':
+        r = call(lambda: list(ctx.pick_iter(u, care_vars=args)))
+        extra = dict(cubes=[])
+    elif op == 'pick':
+        r = call(ctx.pick, u, care_vars=args)
+    else:
+        return None
+    kind, val = r
+    if kind != 'ok':
+        val = ('err', val)
+    elif isinstance(val, bool):
+        val = ('bool', val)
+    elif isinstance(val, int):
+        val = ('int', val)
+    elif isinstance(val, (set, frozenset)):
+        val = ('set', sorted(val))
+    elif isinstance(val, list):
+        val = ('list', val)
+    elif val is None:
+        val = ('none', None)
+    elif isinstance(val, dict):
+        val = ('dict', val)
+    else:
+        val = ('tree', inst.tree(val))
+    out = dict(op=op, pred=pred, args=args, res=val)
+    if extra:
+        out.update(extra)
+    return out
+
+
 # ------------------------------------------------------------------ Coq terms
 def coq_fasgns(ds):
     return cl.lst([bc.coq_fasgn(d) for d in ds])
@@ -319,6 +374,18 @@ def term(p, inst, o):
               f'cube_contract_b {B} {u} cb {cubes} | None => false end')
         return (f'{cb} && eq_opt (multiset_eqb fasgn_eqb) '
                 f'(ctx_pick_iter {T} {u} {care(args)} {cubes}) {exp}')
+    if op == 'pick':
+        cubes = cl.lst([bc.coq_cube(c, inst.name2pair) for c in o['cubes']])
+        if res[0] == 'none':
+            return (f'match ctx_pick {T} {u} {care(args)} {cubes} with '
+                    'Some None => true | _ => false end')
+        if res[0] == 'dict':
+            return (f'match ctx_pick {T} {u} {care(args)} {cubes}, '
+                    f'ctx_pick_iter {T} {u} {care(args)} {cubes} with '
+                    f'Some (Some _), Some ds => existsb (fasgn_eqb '
+                    f'{bc.coq_fasgn(res[1])}) ds | _, _ => false end')
+        return (f'match ctx_pick {T} {u} {care(args)} {cubes} with '
+                'None => true | _ => false end')
     if op == 'apply':
         cop = args[0]
         V, W = f'{p}p_v', f'{p}p_w'
@@ -328,9 +395,8 @@ def term(p, inst, o):
             return tt(f'bapply OpIte {u} (Some {V}) (Some {W})')
         return tt(f'bapply {cop} {u} (Some {V}) None')
     if op == 'replace_with_bdd':
-        subs = cl.lst([f'(({bc.q(x)}, 0%nat), {p}p_{q})'
-                       for x, q in args.items()])
-        return tt(f'Some (bcompose {subs} {u})')
+        subs = cl.lst([f'({bc.q(x)}, {p}p_{q})' for x, q in args.items()])
+        return tt(f'Some (ctx_replace_with_bdd {subs} {u})')
     if op == 'copy':
         return tt(f'Some {u}')
     if op == 'map_bits_to_integers':
@@ -362,11 +428,11 @@ def group(i, inst):
         defs.append(f'Definition {p}p_{name} : pred := '
                     f'of_tt {p}bits ({bc.coq_tree(tree)}).')
     terms = [f'list_eqb bit_eqb {p}bits '
-             f'{bc.coq_bits([q for _, q in inst.pairs])}']
+             f'{bc.coq_bits([q for _, q in inst.pairs])} && '
+             f'list_eqb String.eqb (bit_names {p}t) '
+             f'{bc.coq_idents(inst.bitnames)} && naming_injective {p}t']
     keep = []
     for o in inst.ops:
-        if o['op'] == 'pick':
-            continue          # checked against pick_iter in Python below
         terms.append(term(p, inst, o))
         keep.append(o)
     return bc.chunk_groups('\n'.join(defs), terms), keep
@@ -579,9 +645,53 @@ def enumerate_terms(rng, thorough):
     return terms, cases, len(vecs)
 
 
+def collision_probe(backend, order):
+    """A Boolean variable named like a bit of an integer, declared in two
+    separate calls (both names are legal identifiers; within ONE call the
+    library rejects the pair).  Returns None if the declarations are rejected
+    or the variables are independent, else a description of the aliasing."""
+    import omega.symbolic.fol as _fol
+    ctx = _fol.Context()
+    bc.set_backend(ctx, backend)
+    try:
+        if order == 'bool_first':
+            ctx.declare(b_0='bool')
+            ctx.declare(b=(0, 3))
+        else:
+            ctx.declare(b=(0, 3))
+            ctx.declare(b_0='bool')
+    except ValueError:
+        return None           # rejected: nothing to alias
+    u = ctx.add_expr('b_0')
+    sup = sorted(ctx.support(u))
+    independent = ctx.add_expr('(b = 1) => b_0') != ctx.true
+    qf = ctx.exist({'b'}, u) == u      # quantifying b must not touch b_0
+    if bc.naming_ok(ctx) and sup == ['b_0'] and independent and qf:
+        return None
+    return dict(vars={k: dict(v) for k, v in ctx.vars.items()},
+                bdd_vars=sorted(ctx.bdd.vars), support_of_b_0=sup,
+                b_eq_1_implies_b_0=not independent,
+                exist_b_leaves_b_0=qf)
+
+
 def correspond(ctx):
     mism = []
-    n_inst = 64 if ctx.thorough else 8
+    for backend in ('autoref', 'cudd'):
+        for order in ('bool_first', 'int_first'):
+            r = collision_probe(backend, order)
+            if r is not None:
+                mism.append(Mismatch(
+                    'a Boolean variable b_0 and an integer b declared in '
+                    'separate calls share the bit b_0 (support, exist and '
+                    'let on this context are not those of the set of '
+                    'assignments)',
+                    dict(kind='collision', backend=backend, order=order),
+                    impl=r, key='bitname-collision', property_fails=True))
+                break
+        else:
+            continue
+        break
+    n_inst = 80 if ctx.thorough else 8
     max_bits = 9 if ctx.thorough else 8
     insts = []
     for i in range(n_inst):
@@ -610,7 +720,7 @@ def correspond(ctx):
     hist, nontriv, rejected = {}, 0, 0
     for inst, keep in zip(insts, kept):
         if not res[k]:
-            mism.append(Mismatch('bit order of the model differs',
+            mism.append(Mismatch('bit order / bit names of the model differ',
                                  inst.case()))
         k += 1
         for o in keep:
@@ -627,8 +737,6 @@ def correspond(ctx):
                 mism.append(Mismatch(f'{o["op"]} differs from the model',
                                      inst.case(o), impl=o['res']))
             k += 1
-        hist['pick'] = hist.get('pick', 0) + sum(
-            1 for o in inst.ops if o['op'] == 'pick')
     terms, cases, nvec = enumerate_terms(ctx.rng, ctx.thorough)
     res2 = ctx.eval_bools('enum', HEADER, terms)
     for j, ok in enumerate(res2):
@@ -672,8 +780,8 @@ def correspond(ctx):
                       result=(o['res'][0], str(o['res'][1])[:80]))
                  for o in insts[0].ops[:8]])]
     ctx.extra['correspondence'] = dict(
-        contexts=len(insts), operations=len(res) - len(insts)
-        + hist.get('pick', 0), by_operation=hist,
+        contexts=len(insts), operations=len(res) - len(insts),
+        by_operation=hist,
         rejected_by_assertion=rejected, enumerate_int_vectors=nvec,
         oracle_crosschecked_contexts=orc, mismatches=len(mism),
         backends=['autoref', 'cudd'], max_bits=max_bits)
@@ -693,6 +801,17 @@ def _detuple(t):
 
 
 def check_case(case, rng=None):
+    if case.get('kind') == 'collision':
+        r = collision_probe(case['backend'], case['order'])
+        if r is None:
+            return None
+        return Failing(
+            'Boolean b_0 and integer b (declared in separate calls) are '
+            'aliased: support(b_0) = %s, (b = 1) => b_0 is valid: %s'
+            % (r['support_of_b_0'], r['b_eq_1_implies_b_0']),
+            case, expected='independent variables, or the second declaration '
+            'rejected', got=r, key='bitname-collision',
+            replay_cmd='./check C07 --replay <this file>')
     if case.get('kind') == 'enumerate':
         import omega.symbolic.enumeration as enum
         for v in case['vectors']:
@@ -713,7 +832,15 @@ def check_case(case, rng=None):
     kd = lambda x: (x[0], x[1] if x[1] == 'bool' else tuple(x[1]))
     inst = Inst([kd(x) for x in case['decl']], case['backend'])
     inst.preds = {k: _detuple(v) for k, v in case['preds'].items()}
-    inst.ops = run_ops(rng or random.Random(0), inst, True)
+    inst.ops = []
+    if case.get('op'):
+        o = dict(case['op'])
+        if o.get('op') == 'let_vals' or o.get('op') == 'assign_from':
+            o['args'] = dict(o['args'])
+        one = run_single(inst, o)
+        if one is not None:
+            inst.ops.append(one)
+    inst.ops += run_ops(rng or random.Random(0), inst, True)
     bad = oracle(inst)
     if bad:
         o, exp = bad[0]
